@@ -108,7 +108,8 @@ deriving Repr, DecidableEq
 
 def strBytes (s : String) : Bytes := s.toUTF8.toList
 
-def natStr (n : Nat) : Bytes := strBytes (toString n)
+/-- decimal rendering of a number, as `encoding/json` writes an `int` (the digits `fmt.Sprintf("%d")` gives) -/
+def natStr (n : Nat) : Bytes := ridOf n
 
 /-- `json.Marshal(options)` for a plain-ASCII name -/
 def encodeOpts (name : Bytes) (c : Cfg) : Bytes :=
